@@ -1,6 +1,7 @@
 // C17 — mtbl_crc32c is the standard CRC-32C on every buffer, both implementations
 #define VF_MAIN
 #include "../harness/refcodec.h"
+#include <sys/mman.h>
 #include <sys/wait.h>
 #include <unistd.h>
 using namespace vf;
@@ -77,11 +78,16 @@ struct Case {
   BStr buf;
   int align = 0;
   int early = -1;  // >= 0: not a buffer of its own but the index of a load-time probe (see above)
-  bool valid() const { return align >= 0 && align < 64 && buf.size() <= (64u << 20) && early >= -1 && early < N_EARLY; }
+  int huge = -1;   // >= 0: index into HUGE_CASES: a buffer of 4 GiB and more (thorough tier only, see run_huge)
+  bool valid() const { return align >= 0 && align < 64 && buf.size() <= (64u << 20) && early >= -1 && early < N_EARLY && huge >= -1 && huge < 3; }
   std::string ser() const {
     Out o;
     if (early >= 0) {
       o << "property C17\nearly " << early << "\n";
+      return o.str();
+    }
+    if (huge >= 0) {
+      o << "property C17\nhuge " << huge << "\n";
       return o.str();
     }
     o << "property C17\nbuffer " << buf.ser() << " align=" << align << "\n";
@@ -91,6 +97,7 @@ struct Case {
     Case c;
     for (auto &row : Lines::parse(t).rows)
       if (row[0] == "early" && row.size() >= 2) c.early = atoi(row[1].c_str());
+      else if (row[0] == "huge" && row.size() >= 2) c.huge = atoi(row[1].c_str());
       else if (row[0] == "buffer" && row.size() >= 2) {
         c.buf = BStr::parse(row[1]);
         for (size_t i = 2; i < row.size(); i++)
@@ -157,9 +164,39 @@ static bool check_early(int i) {
   }
   return true;
 }
+// Buffers of 4 GiB and more: the length is a size_t, and the reader checksums a whole block in one call.  The buffer is a
+// never-written anonymous mapping (zero pages) with a few sentinel bytes planted around 0, 2^31, 2^32 and the end, so it
+// costs no memory; the reference is the harness's own table-driven CRC-32C over the same bytes.
+static const struct { uint64_t len; int align; } HUGE_CASES[3] = {{1ull << 32, 0}, {(1ull << 32) + 13, 0}, {(1ull << 32) + 1100, 3}};
+static Result run_huge(int idx) {
+  return run_isolated([&](Result &r) {
+    uint64_t len = HUGE_CASES[idx].len;
+    int align = HUGE_CASES[idx].align;
+    size_t maplen = (size_t)len + 8192;
+    uint8_t *base = (uint8_t *)mmap(nullptr, maplen, PROT_READ | PROT_WRITE, MAP_PRIVATE | MAP_ANONYMOUS | MAP_NORESERVE, -1, 0);
+    if (base == MAP_FAILED) {
+      r.tag("huge_mapping_unavailable");
+      return;
+    }
+    uint8_t *p = base + align;
+    const uint64_t marks[] = {0, 1, 4095, (1ull << 31) - 1, 1ull << 31, (1ull << 32) - 9, (1ull << 32) - 1, 1ull << 32, (1ull << 32) + 5, len - 1};
+    for (uint64_t m : marks)
+      if (m < len) p[m] = (uint8_t)(0xA5 ^ (m * 131));
+    uint32_t want = ref::crc32c_ref(p, (size_t)len);
+    bool sse = my_crc32c_sse42_supported();
+    uint32_t a = mtbl_crc32c(p, (size_t)len), b = my_crc32c_slicing(p, (size_t)len), c2 = sse ? my_crc32c_sse42(p, (size_t)len) : want;
+    munmap(base, maplen);
+    if (a != want) r.failf("mtbl_crc32c(len %llu, alignment %d) = %08x, standard CRC-32C is %08x", (unsigned long long)len, align, a, want);
+    else if (b != want) r.failf("my_crc32c_slicing(len %llu, alignment %d) = %08x, standard CRC-32C is %08x", (unsigned long long)len, align, b, want);
+    else if (c2 != want) r.failf("my_crc32c_sse42(len %llu, alignment %d) = %08x, standard CRC-32C is %08x", (unsigned long long)len, align, c2, want);
+    r.nontrivial = true;
+    r.tag("buffer_ge_4GiB");
+  }, 1500);
+}
 static Result run_case(const Case &c) {
   Result r;
   g_have_sse = my_crc32c_sse42_supported();
+  if (c.huge >= 0) return run_huge(c.huge);
   if (c.early >= 0) {
     if (!check_early(c.early)) r.failf("%s", g_err);
     r.nontrivial = EARLY_LENS[c.early] >= 1;
@@ -238,6 +275,18 @@ static int extra_modes(const WorkerOpts &o, Stats &stats) {
       bytes big;
       for (int i = 0; i < 100000; i++) big.push_back((char)rnd());
       if (ref::crc32c_bitwise(U(big), big.size()) != ref::crc32c_ref(U(big), big.size())) { snprintf(g_err, sizeof g_err, "harness: table-driven reference != bitwise reference"); return fail_out(o, big, 0); }
+    }
+  } else if (o.mode == "huge") {
+    for (int i = o.worker; i < 3; i += o.nworkers) {
+      Case hc;
+      hc.huge = i;
+      Result hr = run_case(hc);
+      stats.add(hc.ser(), hr);
+      if (hr.fail) {
+        write_file(o.outdir + "/fail.case", hc.ser());
+        write_file(o.outdir + "/fail.msg", hr.msg);
+        return 1;
+      }
     }
   } else if (o.mode == "lens") {
     // every length 0..1100 at every alignment 0..7, random content; lengths split over workers
